@@ -163,3 +163,99 @@ theorem step_valid (cfg : Cfg) (impl : Impl) (c : Conn) (t : Msg) (hwf : WF c.fi
   rw [step_reply]; exact (key k).2.2
 
 end G9.C04
+
+namespace G9.C04
+open G9 G9.Srv
+
+/-- the protocol's set of valid fids after a whole history of (request, reply) pairs -/
+def specRun (v : UInt32 → Bool) : List (Msg × Reply) → (UInt32 → Bool)
+  | [] => v
+  | (t, rep) :: rest => specRun (specValid v t rep) rest
+
+theorem specRun_congr (v v' : UInt32 → Bool) (h : ∀ k, v k = v' k) (l : List (Msg × Reply)) (k : UInt32) :
+    specRun v l k = specRun v' l k := by
+  have : v = v' := funext h
+  rw [this]
+
+/-- For every history — any length, any requests, any implementation answers — the table
+    between requests is well-formed and the valid fids are exactly those the protocol
+    history (requests and the replies that were sent) determines. -/
+theorem fids_refine_spec (cfg : Cfg) (hs : List (Msg × Impl)) (c : Conn) (hwf : WF c.fids) :
+    WF (run cfg c hs).1.fids ∧
+    ∀ k, valid (run cfg c hs).1.fids k =
+      specRun (valid c.fids) ((hs.map (·.1)).zip ((run cfg c hs).2.map (·.reply))) k := by
+  induction hs generalizing c with
+  | nil => exact ⟨hwf, fun k => rfl⟩
+  | cons p hs ih =>
+    obtain ⟨t, impl⟩ := p
+    obtain ⟨hwf', hv⟩ := step_valid cfg impl c t hwf
+    obtain ⟨h1, h2⟩ := ih (step cfg impl c t).1 hwf'
+    refine ⟨h1, fun k => ?_⟩
+    simp only [run, List.map_cons, List.zip_cons_cons, specRun]
+    rw [h2 k]
+    exact specRun_congr _ _ hv _ k
+
+/-- …in particular from a fresh connection. -/
+theorem fids_refine_spec_init (cfg : Cfg) (hs : List (Msg × Impl)) :
+    WF (run cfg (Conn.init cfg) hs).1.fids ∧
+    ∀ k, valid (run cfg (Conn.init cfg) hs).1.fids k =
+      specRun (fun _ => false) ((hs.map (·.1)).zip ((run cfg (Conn.init cfg) hs).2.map (·.reply))) k := by
+  obtain ⟨h1, h2⟩ := fids_refine_spec cfg hs (Conn.init cfg) (init_wf cfg)
+  refine ⟨h1, fun k => ?_⟩
+  rw [h2 k]
+  exact specRun_congr _ _ (fun k => by simp [valid, Conn.init, refOf, lookup]) _ k
+
+/-- A request naming a fid that is not valid (NOFID included) is refused with exactly the
+    'unknown fid' error and reaches the implementation in no way; the table is untouched. -/
+theorem unknown_fid_refused (cfg : Cfg) (impl : Impl) (c : Conn) (t : Msg) (f : UInt32)
+    (ht : msgFid t = some f) (hinv : lookup c.fids f = none ∨ f = NOFID) :
+    (step cfg impl c t).2.reply = .err .unknownfid ∧ (step cfg impl c t).2.calls = [] ∧
+    (step cfg impl c t).2.destroyed = [] ∧ (step cfg impl c t).1.fids = c.fids := by
+  have hpre : pre cfg impl c t = ⟨c, [], .refuse .unknownfid⟩ := by
+    cases t <;> simp only [msgFid] at ht <;> (try cases ht) <;>
+      (unfold pre; simp only [msgFid]; rcases hinv with hl | hn <;> simp [*])
+  unfold step
+  simp [hpre, decRefs]
+
+/-- A Tattach or Tauth that would bind an already valid fid is refused with 'fid already in
+    use' without reaching the implementation. -/
+theorem attach_in_use_refused (cfg : Cfg) (impl : Impl) (c : Conn) (fid afid : UInt32)
+    (un an : Bytes) (n : UInt32) (r : FidRec) (hl : lookup c.fids fid = some r) (hn : fid ≠ NOFID) :
+    (step cfg impl c (.tattach fid afid un an n)).2.reply = .err .inuse ∧
+    (step cfg impl c (.tattach fid afid un an n)).2.calls = [] ∧
+    (step cfg impl c (.tattach fid afid un an n)).1.fids = c.fids := by
+  have hpre : pre cfg impl c (.tattach fid afid un an n) = ⟨c, [], .refuse .inuse⟩ := by
+    unfold pre; simp [hn, fidNew, hl]
+  unfold step; simp [hpre, decRefs]
+
+theorem auth_in_use_refused (cfg : Cfg) (impl : Impl) (c : Conn) (afid : UInt32)
+    (un an : Bytes) (n : UInt32) (r : FidRec) (hl : lookup c.fids afid = some r) (hn : afid ≠ NOFID) :
+    (step cfg impl c (.tauth afid un an n)).2.reply = .err .inuse ∧
+    (step cfg impl c (.tauth afid un an n)).2.calls = [] ∧
+    (step cfg impl c (.tauth afid un an n)).1.fids = c.fids := by
+  have hpre : pre cfg impl c (.tauth afid un an n) = ⟨c, [], .refuse .inuse⟩ := by
+    unfold pre; simp [hn, fidNew, hl]
+  unfold step; simp [hpre, decRefs]
+
+/-- fid numbers are private to their connection: a request on one connection of a server
+    leaves every other connection's table as it was -/
+theorem conn_private (cfg : Cfg) (impl : Impl) (conns : Nat → Conn) (i j : Nat) (t : Msg) (h : j ≠ i) :
+    (fun n => if n = i then (step cfg impl (conns i) t).1 else conns n) j = conns j := by
+  simp [h]
+
+/-! ### non-vacuity: a concrete history on which the statements have content -/
+
+def exCfg : Cfg := { srvMsize := 8192, srvDotu := true, hasAuth := false,
+                     uid2user := fun n => some n.toNat, uname2user := fun _ => none }
+def okImpl : Impl := fun call =>
+  match call.op with
+  | .attach => .r (.rattach { typ := 0x80, vers := 0, path := 1 })
+  | .walk => .r (.rwalk [{ typ := 0, vers := 0, path := 2 }])
+  | .clunk => .r .rclunk
+  | _ => .e [] 5
+
+example : ((run exCfg (Conn.init exCfg)
+    [(.tattach 1 NOFID [] [] 7, okImpl), (.twalk 1 2 [[0x61]], okImpl), (.tclunk 1, okImpl)]).1.fids.map (·.1))
+    = [2] := by decide
+
+end G9.C04
